@@ -108,3 +108,11 @@ Fixpoint find_index {A} (p : A -> bool) (l : list A) : option nat :=
   | [] => None
   | x :: r => if p x then Some 0 else match find_index p r with Some i => Some (S i) | None => None end
   end.
+
+(** insertion sort on integers ([sorted(...)] of a list of ints) *)
+Fixpoint insert_Z (x : Z) (l : list Z) : list Z :=
+  match l with
+  | [] => [x]
+  | y :: r => if (y <=? x)%Z then y :: insert_Z x r else x :: l
+  end.
+Definition sort_Z (l : list Z) : list Z := fold_left (fun acc x => insert_Z x acc) l [].
